@@ -910,6 +910,11 @@ VSattach(HFILEID     f,    /* IN: file handle */
                 access_rec->posn = 0; /* to fix bugzilla #486 - BMR, Dec, 05 */
             }
             else {
+                /* a vdata that is being written cannot be attached for reading:
+                   the write attachment would lose its access id and its header */
+                if (w->nattach)
+                    HGOTO_ERROR(DFE_BADATTACH, FAIL);
+
                 vs = w->vs;
 
                 vs->access = 'r';
